@@ -8,6 +8,8 @@ package main
 //                                       packets for unknown channels; one consumer goroutine per channel
 //   mux tx <nchan> <nmsg> <seed>        one sender goroutine per channel, messages of random length: on the
 //                                       peer side every packet carries its channel's id and consecutive numbers
+//   mux setupsync <n>                  n logical channels set up against a peer whose acknowledgement is routed before
+//                                       the client's Write of the setup packet returns
 //   mux closeiso <cap> <extra>          a logical channel is closed while another one holds cap+extra unread packages
 //   mux setup <acktype>                 NewChannel for a logical channel succeeds iff the reply is a header-only
 //                                       PROTACK packet
@@ -49,6 +51,25 @@ func setupResponder(mc *memConn, ackType byte, stop chan struct{}) {
 			off += l
 		}
 	}
+}
+
+// syncAckConn acknowledges a SETUP header-only packet inside the Write that carries it and returns from
+// that Write only after the reader goroutine has taken the acknowledgement off the transport and had time
+// to route it.
+type syncAckConn struct {
+	*memConn
+}
+
+func (c *syncAckConn) Write(p []byte) (int, error) {
+	n, err := c.memConn.Write(p)
+	if err == nil && len(p) == 8 && p[0] == 8 {
+		c.memConn.feed([]byte{11, 1, 0, 8, p[4], p[5], 0, 0})
+		for i := 0; i < 200 && !c.memConn.drained(); i++ {
+			time.Sleep(100 * time.Microsecond)
+		}
+		time.Sleep(3 * time.Millisecond)
+	}
+	return n, err
 }
 
 func muxImpl(line string) string {
@@ -180,6 +201,29 @@ func muxImpl(line string) string {
 		case <-time.After(2 * time.Second):
 			return "setup=blocked"
 		}
+	case "setupsync":
+		// the peer acknowledges the setup packet at once: the acknowledgement has been read and routed by the
+		// reader goroutine before the client's Write of the setup packet returns. The channel must already
+		// be known to the connection then.
+		n := arg(2)
+		mc := newMemConn()
+		sc := &syncAckConn{memConn: mc}
+		conn, _ := tds.VerifNewConn(context.Background(), sc, testInfo(), true)
+		defer conn.VerifCancel()
+		conn.NewChannel() // channel 0
+		for i := 0; i < n; i++ {
+			res := make(chan error, 1)
+			go func() { _, err := conn.NewChannel(); res <- err }()
+			select {
+			case err := <-res:
+				if err != nil {
+					return "setting up a logical channel succeeds when the server acknowledges it (acknowledgement arriving at once: " + clip(err.Error(), 80) + ")"
+				}
+			case <-time.After(1500 * time.Millisecond):
+				return "setting up a logical channel succeeds when the server acknowledges it (acknowledgement arriving at once: NewChannel does not return)"
+			}
+		}
+		return "ok setupsync"
 	case "route":
 		nchan, npkg, seed := arg(2), arg(3), arg(4)
 		rng := rand.New(rand.NewSource(int64(seed)))
@@ -432,6 +476,7 @@ func init() {
 				emit(Case{Line: fmt.Sprintf("mux tx %d %d %d", 1+rng.Intn(8), 1+rng.Intn(6), rng.Intn(1<<30)), Kind: "tx"})
 				if i%4 == 0 {
 					emit(Case{Line: fmt.Sprintf("mux closeiso %d %d", 1+rng.Intn(5), rng.Intn(4)), Kind: "close-isolated"})
+					emit(Case{Line: fmt.Sprintf("mux setupsync %d", 1+rng.Intn(4)), Kind: "setup-ack-at-once"})
 				}
 			}
 		},
